@@ -278,7 +278,7 @@ def model_phase(ctx):
         jobs.append(dict(cfg="Decoys_quick.cfg", note="len<=5 over {K,R,A,C,P}; pairs len<=2; 3 enzymes x reverse x concat"))
     else:
         jobs.append(dict(cfg="Decoys_thorough.cfg", timeout=3000,
-                         note="len<=7 over {K,R,A,C,P}; pairs len<=2; 3 enzymes x reverse; concat on"))
+                         note="len<=7 over {K,R,A,C,P}; pairs len<=2; [KR] and [KR](?!P) x reverse; concat on"))
         jobs.append(dict(cfg="Decoys_quick.cfg", note="len<=5; pairs len<=2; 3 enzymes x reverse x concat on/off"))
         jobs.append(dict(cfg="Decoys_pairs.cfg", timeout=3000,
                          note="every pair of sequences len<=4 over {K,A,C} x reverse: shared permutation per peptide length"))
@@ -324,8 +324,8 @@ def build_cases(ctx, rng):
     idx = ctx.seed
     for seqs, enz, reverse, concat in base:
         reps = 1
-        if not reverse and any(shufflable(s, enz) for s in seqs):
-            reps += 1                           # a second RNG seed where something can be shuffled
+        if not reverse and sum(map(len, seqs)) <= 5 and any(shufflable(s, enz) for s in seqs):
+            reps += 1                           # a second RNG seed where something can be shuffled (small tier of cases)
         for rep in range(reps):
             cases.append(make_case(idx, seqs, enz, reverse, concat, ctx.seed * 7919 + idx * 31 + rep))
             idx += 1
@@ -413,11 +413,11 @@ def run(ctx):
                "on the real code by records of 69..71, 139..141, 210, 211 residues")
     return ctx.finish(
         rule="cases = every (1 record of length <= %d | 2 records of length <= %d over {K,R,A,C,P}) x enzyme in "
-             "{[KR], [K], [KR](?!P)} x reverse x concatenate (thorough: concatenate on only above length 5 / pair length "
-             "2), enumerated by TLC from Decoys.tla PickRecs, each rendered "
+             "{[KR], [K], [KR](?!P)} x reverse x concatenate (thorough: above length 5 / pair length 2 only "
+             "[KR] and [KR](?!P) with concatenate on), enumerated by TLC from Decoys.tla PickRecs, each rendered "
              "under a rotating text layout (line width, description, final newline, one file per record, str/compiled "
-             "enzyme, str/list/tuple argument, prefix, name pattern) and, when something can be shuffled, under 2 RNG "
-             "seeds; plus seeded random files of 1..6 records with lengths around the 70-column wrap points; "
+             "enzyme, str/list/tuple argument, prefix, name pattern) and, for the inputs up to length 5 where something can be shuffled, under 2 "
+             "RNG seeds; plus seeded random files of 1..6 records with lengths around the 70-column wrap points; "
              "distinct = distinct (sequences, enzyme, reverse, concatenate)" % (
                  (5, 2) if ctx.quick else (7, 3)),
         exhaustive=True)
